@@ -249,16 +249,29 @@ def fn_extents(text):
             is_spec = bool(re.search(r"\bspec\s+(\(checked\)\s+)?$", back)) or bool(re.search(r"\bspec\s*$", back))
             e = j
             end = None
+            seen_clause = False
+            prev_sig = None
             while e < len(toks):
-                if toks[e][0] == "p":
-                    ch = text[toks[e][1]]
+                tk = toks[e]
+                if tk[0] in ("ws", "lc", "bc"):
+                    e += 1
+                    continue
+                ttxt = text[tk[1]:tk[2]]
+                if tk[0] == "id" and ttxt in ("requires", "ensures", "decreases", "recommends", "opens_invariants", "no_unwind", "invariant"):
+                    seen_clause = True
+                if tk[0] == "p":
+                    ch = ttxt
                     if ch == "{":
-                        end = s.match[e]
-                        break
-                    if ch == ";":
-                        break
-                    if ch in "([":
+                        # the body brace: no contract clause yet, or (convention: clause lists end with a trailing comma) directly after a comma
+                        if not seen_clause or prev_sig == ",":
+                            end = s.match[e]
+                            break
                         e = s.match[e]
+                    elif ch == ";" :
+                        break
+                    elif ch in "([":
+                        e = s.match[e]
+                prev_sig = text[toks[e][1]:toks[e][2]]
                 e += 1
             if end is None or is_spec:
                 continue
@@ -355,6 +368,8 @@ def run_unit(name, prop):
         # tags: on any span line (primary or secondary, e.g. the callee's requires clause)
         tg = []
         for s in spans:
+            if (s.get("label") or "").startswith("at the end of the function body") or (s.get("label") or "").startswith("at this exit"):
+                continue
             for ln in range(s["line_start"], s["line_end"] + 1):
                 for m in TAG.finditer(lines[ln - 1]):
                     for pp in re.split(r",\s*", m.group(1)):
